@@ -202,6 +202,9 @@ theories/Props/C15.vos theories/Props/C15.vok theories/Props/C15.required_vos: t
 theories/Proofs/ClientFailProofs.vo theories/Proofs/ClientFailProofs.glob theories/Proofs/ClientFailProofs.v.beautified theories/Proofs/ClientFailProofs.required_vo: theories/Proofs/ClientFailProofs.v theories/Model/ClientFail.vo
 theories/Proofs/ClientFailProofs.vio: theories/Proofs/ClientFailProofs.v theories/Model/ClientFail.vio
 theories/Proofs/ClientFailProofs.vos theories/Proofs/ClientFailProofs.vok theories/Proofs/ClientFailProofs.required_vos: theories/Proofs/ClientFailProofs.v theories/Model/ClientFail.vos
+theories/Props/C06.vo theories/Props/C06.glob theories/Props/C06.v.beautified theories/Props/C06.required_vo: theories/Props/C06.v theories/Model/ClientFail.vo theories/Proofs/ClientFailProofs.vo
+theories/Props/C06.vio: theories/Props/C06.v theories/Model/ClientFail.vio theories/Proofs/ClientFailProofs.vio
+theories/Props/C06.vos theories/Props/C06.vok theories/Props/C06.required_vos: theories/Props/C06.v theories/Model/ClientFail.vos theories/Proofs/ClientFailProofs.vos
 theories/Proofs/WriterSMProofs.vo theories/Proofs/WriterSMProofs.glob theories/Proofs/WriterSMProofs.v.beautified theories/Proofs/WriterSMProofs.required_vo: theories/Proofs/WriterSMProofs.v theories/Model/WriterSM.vo theories/Proofs/HeaderProofs.vo theories/Proofs/MessageProofs.vo
 theories/Proofs/WriterSMProofs.vio: theories/Proofs/WriterSMProofs.v theories/Model/WriterSM.vio theories/Proofs/HeaderProofs.vio theories/Proofs/MessageProofs.vio
 theories/Proofs/WriterSMProofs.vos theories/Proofs/WriterSMProofs.vok theories/Proofs/WriterSMProofs.required_vos: theories/Proofs/WriterSMProofs.v theories/Model/WriterSM.vos theories/Proofs/HeaderProofs.vos theories/Proofs/MessageProofs.vos
